@@ -331,7 +331,23 @@ def grammar_builder_view(gm: Module) -> tuple[FuncInfo, list[str]]:
         ret = getattr(h.node, "returns", None)
         return isinstance(tg, ast.Tuple) or (ret is not None and ast.unparse(ret).startswith(("list", "tuple", "List", "Tuple")))
 
-    return inline_helpers(gm.func("GBNFCompiler.compile_schema"), select)
+    view, inlined = inline_helpers(gm.func("GBNFCompiler.compile_schema"), select)
+
+    # the rules read compile_schema by the names of four locals; they are recognised by definition / use, whatever they are called
+    def joined_with(sep: str):
+        def find(fn: ast.AST) -> str | None:
+            for n in walk_no_nested(fn):
+                if isinstance(n, ast.Call) and isinstance(n.func, ast.Attribute) and n.func.attr == "join" and isinstance(n.func.value, ast.Constant) and n.func.value.value == sep and len(n.args) == 1 and isinstance(n.args[0], ast.Name):
+                    return n.args[0].id
+            return None
+        return find
+
+    from ..source import normalise_locals
+
+    view = normalise_locals(view, [
+        ("rule_name", lambda v: isinstance(v, ast.Call) and ast.unparse(v.func) == "self._unique_rule_name"),
+    ], finders=[("rules", joined_with("\n")), ("field_rule_names", joined_with(" | "))])
+    return view, inlined
 
 
 def check(run: Run) -> None:
